@@ -123,6 +123,18 @@ def same(a, b, dtype=True):
     return a == b
 
 
+def same_cells(a, b):
+    """like `same`, but the dtype of a ragged / flat array WITHOUT ANY CELL is not judged (numpy infers
+    float64 for an empty list; the properties speak about cells)"""
+    if isinstance(a, dict) and isinstance(b, dict) and a.get("k") == b.get("k") and a.get("k") in ("ra", "nd"):
+        def empty(x):
+            v = x["v"]
+            return all((len(r) == 0 if isinstance(r, list) else False) for r in v) if isinstance(v, list) else False
+        if empty(a) and empty(b):
+            return same(a, b, dtype=False)
+    return same(a, b)
+
+
 # ----------------------------------------------------------------------------------------------
 # Lean phase
 # ----------------------------------------------------------------------------------------------
